@@ -23,6 +23,12 @@ FirstIdx(seq, Test(_)) == SelectInSeq(seq, Test)           \* 0 if none
 BMax(a, b) == IF a >= b THEN a ELSE b
 BMin(a, b) == IF a <= b THEN a ELSE b
 
+(* TLC represents [i \in 1..n |-> e] as a lazy function whose Len() and      *)
+(* element access re-evaluate e; nesting such values makes evaluation      *)
+(* quadratic or worse.  Every operator below therefore returns a           *)
+(* materialised sequence: Mat evaluates each element exactly once.         *)
+Mat(f, n) == SubSeq(f, 1, n)
+
 Zero == <<>>
 One  == <<1>>
 
@@ -105,7 +111,7 @@ DivModSmall(a, k) ==
 (***************************************************************************)
 (* Powers of two, truncation, shifts.  k is a native integer.              *)
 (***************************************************************************)
-Pow2(k) == [i \in 1..(k \div 8 + 1) |-> IF i = k \div 8 + 1 THEN 2^(k % 8) ELSE 0]
+Pow2(k) == Mat([i \in 1..(k \div 8 + 1) |-> IF i = k \div 8 + 1 THEN 2^(k % 8) ELSE 0], k \div 8 + 1)
 
 \* x mod 2^k
 Mod2(x, k) ==
@@ -131,7 +137,7 @@ Div2(x, k) ==
 Shl(x, k) ==
   IF Len(x) = 0 THEN Zero
   ELSE LET nb == k \div 8  r == k % 8 IN
-       IF r = 0 THEN [i \in 1..(nb + Len(x)) |-> IF i <= nb THEN 0 ELSE x[i - nb]]
+       IF r = 0 THEN Mat([i \in 1..(nb + Len(x)) |-> IF i <= nb THEN 0 ELSE x[i - nb]], nb + Len(x))
        ELSE Norm([i \in 1..(nb + Len(x) + 1) |->
                     IF i <= nb THEN 0
                     ELSE ((At(x, i - nb) * 2^r) % 256) + (IF i - nb >= 2 THEN x[i - nb - 1] \div 2^(8 - r) ELSE 0)])
@@ -157,7 +163,7 @@ TrailingZeros(x) ==
   IN 8 * (k - 1) + ByteTz(x[k])
 
 \* the k-bit binary expansion, bit 0 first, as a sequence of 0/1
-ToBits(x, k) == [i \in 1..k |-> BitAt(x, i - 1)]
+ToBits(x, k) == Mat([i \in 1..k |-> BitAt(x, i - 1)], k)
 \* value of a bit sequence (bit 0 first)
 FromBits(bs) ==
   LET n == Len(bs) IN
@@ -167,7 +173,7 @@ FromBits(bs) ==
 
 \* bytewise logic
 BAnd(a, b) == Norm([i \in 1..BMin(Len(a), Len(b)) |-> a[i] & b[i]])
-BOr(a, b)  == [i \in 1..BMax(Len(a), Len(b)) |-> At(a, i) | At(b, i)]
+BOr(a, b)  == Mat([i \in 1..BMax(Len(a), Len(b)) |-> At(a, i) | At(b, i)], BMax(Len(a), Len(b)))
 BXor(a, b) == Norm([i \in 1..BMax(Len(a), Len(b)) |-> At(a, i) ^^ At(b, i)])
 \* complement within k bits: 2^k - 1 - x   (x < 2^k)
 NotK(x, k) ==
@@ -178,8 +184,8 @@ NotK(x, k) ==
 Ones(k) == NotK(Zero, k)
 
 \* x padded / truncated to exactly n bytes (little endian)
-ToBytes(x, n) == [i \in 1..n |-> At(x, i)]
-Rev(s) == [i \in 1..Len(s) |-> s[Len(s) + 1 - i]]
+ToBytes(x, n) == Mat([i \in 1..n |-> At(x, i)], n)
+Rev(s) == LET n == Len(s) IN Mat([i \in 1..n |-> s[n + 1 - i]], n)
 
 (***************************************************************************)
 (* General division by binary long division; used only where no witness    *)
